@@ -27,7 +27,7 @@ SHAPES = {"A": {"a": 1}, "B": {"b": 2}, "AC": {"a": 1, "c": 3}, "Z": {"z": 0}}
 
 
 def bounds(tier):
-    return dict(tier=tier, wirings=["config", "configfmt (orjson mixin: from_dict and from_json interleaved)", "holder", "holder2 (two discriminated fields, two tagger functions)", "codec"], settings=len(_settings()), history_depth=6 if tier == "quick" else 8,
+    return dict(tier=tier, wirings=["config", "configfmt (orjson mixin: from_dict and from_json interleaved)", "codec2 (two discriminated fields over one hierarchy in a plain dataclass, one decoder)", "holder", "holder2 (two discriminated fields, two tagger functions)", "codec"], settings=len(_settings()), history_depth=6 if tier == "quick" else 8,
                 subclasses=list(SUBS))
 
 
@@ -45,8 +45,10 @@ def _settings():
 
 def units(tier):
     out = []
-    for wiring in ("config", "configfmt", "holder", "holder2", "codec"):
+    for wiring in ("config", "configfmt", "holder", "holder2", "codec", "codec2"):
         for st in _settings():
+            if wiring == "codec2" and not (st[0] and st[3] is None and len(st) == 4):
+                continue      # two discriminated fields over the SAME hierarchy (tag attributes t and u) in one plain dataclass, one decoder
             if wiring in ("config", "configfmt") and not st[1]:
                 continue      # a Config discriminator requires include_subtypes (documented ValueError)
             if wiring == "holder2" and not (st[0] and st[3]):
@@ -85,7 +87,7 @@ class Fam:
             from mashumaro.mixins.orjson import DataClassORJSONMixin
             ns["DataClassORJSONMixin"] = DataClassORJSONMixin
             base = "DataClassORJSONMixin"
-        src = f"@dataclass\nclass Base({base}):\n    t: ClassVar[str] = 'base'\n"
+        src = f"@dataclass\nclass Base({base}):\n    t: ClassVar[str] = 'base'\n    u: ClassVar[str] = 'BASE'\n"
         if wiring in ("config", "configfmt"):
             src += f"    class Config(BaseConfig):\n        discriminator = {disc}\n"
         self.ctx.run(src)
@@ -103,6 +105,10 @@ class Fam:
         elif wiring == "codec":
             self.ctx.run(f"_shape = Annotated[Base, {disc}]")
             self.decoder = BasicDecoder(ns["_shape"])
+        elif wiring == "codec2":
+            disc_u = disc.replace("field='t'", "field='u'")
+            self.ctx.run(f"@dataclass\nclass Holder:\n    x: Annotated[Base, {disc}]\n    y: Annotated[Base, {disc_u}]\n")
+            self.decoder = BasicDecoder(ns["Holder"])
 
     def define(self, name):
         fields = "".join(f"    {f}: int\n" for f in FIELDS[name] if f not in FIELDS[PARENT[name]])
@@ -112,7 +118,7 @@ class Fam:
         elif self.abstract_mid and name == "Sub3":
             self.ctx.run(f"@dataclass\nclass Sub3(Sub1):\n    t: ClassVar[str] = {TAG[name]!r}\n{fields}    def must(self): return 1\n")
         else:
-            self.ctx.run(f"@dataclass\nclass {name}({PARENT[name]}):\n    t: ClassVar[str] = {TAG[name]!r}\n{fields}")
+            self.ctx.run(f"@dataclass\nclass {name}({PARENT[name]}):\n    t: ClassVar[str] = {TAG[name]!r}\n    u: ClassVar[str] = {name.upper()!r}\n{fields}")
         self.defined.append(name)
 
     def decode(self, d, via=None, fmt=False):
@@ -130,6 +136,16 @@ class Fam:
             r = ns["Holder"].from_dict({"x": d, "y": {"t": "o-osub", "o": 4}})
             if type(r.y) is not ns["OSub"] or r.y.o != 4:
                 raise AssertionError(f"second discriminated field decoded as {r.y!r}")
+            return r.x
+        if self.wiring == "codec2":
+            # the second field carries the same data tagged through the OTHER attribute for the same class
+            by_t = {repr(TAG[c]): c.upper() for c in TAG}
+            dy = {k: v for k, v in d.items() if k != "t"}
+            if "t" in d:
+                dy["u"] = by_t.get(repr(d["t"]), "<UNKNOWN>")
+            r = self.decoder.decode({"x": d, "y": dy})
+            if type(r.y) is not type(r.x) or r.y != r.x:
+                raise AssertionError(f"second discriminated field decoded as {r.y!r}, first as {r.x!r}")
             return r.x
         return self.decoder.decode(d)
 
